@@ -65,7 +65,8 @@ def replay_ladder(unit, obl, seed, tier):
     out = dict(kind='none', rung=None, tried=0)
     from .contracts import CONTRACTS
     c = CONTRACTS[qn]
-    if c.extra.get('method') or any(str(v).startswith('Ref_') or v == 'closure' for v in (c.closure_env or {}).values()):
+    if c.extra.get('method') or any(p_[1][0] == 'ref' for p_ in c.params) or '@' in qn or \
+            any(str(v).startswith('Ref_') or v == 'closure' for v in (c.closure_env or {}).values()):
         # a method / closure over an object: its counter-model is a heap state, which the native harness cannot
         # rebuild in general; the violation is reported with the solver's output (no-failing-input-found)
         out['note'] = 'stateful unit: counter-model is a heap state (see model / smt_head); no native replay'
@@ -108,7 +109,7 @@ def load_known():
 
 def obl_id(prop, unit, o):
     inst = unit['instance']
-    u = unit['qualname'].split('afkak.', 1)[-1] + ('[%s]' % ','.join('%s=%s' % kv for kv in sorted(inst.items())) if inst else '')
+    u = unit['qualname'].split('afkak.', 1)[-1] + ('[%s]' % (inst['@label'] if '@label' in inst else ','.join('%s=%s' % kv for kv in sorted(inst.items()))) if inst else '')
     return '%s:%s:%s' % (prop, u, o['name'])
 
 
@@ -313,10 +314,7 @@ def write_evidence(prop, tier, seed, eng, funcs, n_obl, n_dis, by_backend, solve
     meta = PROP_META.get(prop, {})
     trusted = list(TRUSTED_BASE) + meta.get('trusted', [])
     for qn, c in CONTRACTS.items():
-        cprops = set(c.props)
-        for nm in list(c.ensures) + list(c.raises):
-            cprops.update(c.clause_props(nm))
-        if prop in cprops:
+        if prop in c.all_props():
             for a in c.extra.get('assumes', []):
                 if a not in trusted:
                     trusted.append(a)
@@ -391,9 +389,13 @@ XCHECK = {}
 PROP_LEVEL = {'C07': 'other', 'C08': 'other', 'C15': 'other', 'C20': 'other'}
 
 SCENARIO_UNITS = {
-    'C13': [('consumer', 400, 'Consumer.stop()/shutdown() (500+ symbolic paths) and their interleavings with replies, timers and processor results')],
-    'C03': [('consumer', 400, 'commit()/auto-commit chains across processor results: a committed offset was successfully processed')],
-    'C02': [('consumer', 400, 'delivery order / no concurrent invocation across fetch replies, retries and compaction gaps')],
+    'C12': [('consumer_e2e', 1500, 'Consumer + real KafkaClient + codec over a simulated broker: delivered content equals the log, truncated tails never delivered')],
+    'C13': [('consumer_e2e', 1500, 'Consumer + real KafkaClient + codec over a simulated broker: no processor call, request or timer after stop; start() fires once'),
+            ('consumer', 400, 'Consumer.stop()/shutdown() (500+ symbolic paths) and their interleavings with replies, timers and processor results')],
+    'C03': [('consumer_e2e', 1500, 'Consumer + real KafkaClient + codec over a simulated broker and coordinator: every OffsetCommit carries a successfully processed offset'),
+            ('consumer', 400, 'commit()/auto-commit chains across processor results: a committed offset was successfully processed')],
+    'C02': [('consumer_e2e', 1500, 'Consumer + real KafkaClient + codec over a simulated broker (compaction gaps, gzip wrappers in both formats starting before the requested offset, truncation, errors): delivery is a gap-free in-order run of the log from the start position'),
+            ('consumer', 400, 'delivery order / no concurrent invocation across fetch replies, retries and compaction gaps')],
     'C04': [('magic_fallback', 1, 'message format chosen before the API version is known (Producer._send_requests + failed discovery): deterministic reproducer')],
     'C09': [('producer_e2e', 2000, 'Producer + real KafkaClient + codec over simulated broker connections: acknowledged payloads never re-sent, per-partition order inside every request, transmissions bounded by the attempt limit')],
     'C19': [('producer_e2e', 2000, 'Producer + real KafkaClient over simulated broker connections: no produce request reaches a connection after stop()')],
